@@ -27,7 +27,11 @@ RULE = ("one case = one operation sequence on one reference/target pair: referen
         "axis permutation, a deformation or a new random conformation, with their own gro residue numbers), the construction molecules themselves, 1..3 molecules "
         "of other species (other name, other atom name, other length, the target), every returned molecule; operations: "
         "call on a valid argument (repeats included), call on another species, call on a non-molecule, in-place coordinate "
-        "changes of the construction reference / target / an argument / a previously returned molecule. K only: same-name "
+        "changes of the construction reference / target / an argument / a previously returned molecule, residue renumbering "
+        "(`mol.resids = [...]`, gro and topology numbers; 1 in 12 with a wrong length) of the construction reference / target / "
+        "any handle incl. molecules sharing the reference's topology; in 25% of the pairs with a target of >= 3 atoms a reverse "
+        "map ExchangeMap(tgt, ref) is alive in the same world with its own arguments (copies of the target) and is called "
+        "in between. K only: same-name "
         "species with another bond graph, reference and target sharing one topology, a deep copy with other topology "
         "residue numbers. A case is non-trivial when distinct and containing >= 2 successful calls with at least one "
         "mutation or rejected call between the first and the last of them.")
@@ -233,6 +237,15 @@ def gen_static(rs, uid, k_only=False):
         if kind == "deep_topresid":
             o["top_resids"] = [int(x) for x in rs.randint(100, 200, size=nres_r)]
         objs.append(o)
+    spec["reverse"] = False
+    if not spec["shared_top"] and n_tgt >= 3 and rs.randint(4) == 0:
+        # a reverse map ExchangeMap(tgt, ref) alive in the same world, with arguments of the target's species
+        spec["reverse"] = True
+        nres_tt = len(set(a[2] for a in tgt_atoms))
+        for _ in range(int(rs.randint(1, 4))):
+            p = (tgt_pos - tgt_pos.mean(0)) @ rotmat(rs).T + rs.uniform(-50, 50, size=3)
+            objs.append({"kind": str(rs.choice(["tcopy", "tdeep"])), "pos": lst(p),
+                         "gro_resids": [int(x) for x in rs.randint(1, 9000, size=nres_tt)] if rs.randint(4) else None})
     order = rs.permutation(len(objs))
     spec["objs"] = [objs[i] for i in order]
     return spec
@@ -253,7 +266,8 @@ def collinear_anchors(mol):
     return k
 
 
-VALID = ("copy", "deep", "ref")
+VALID = ("copy", "deep", "ref", "rresult")          # handles of the reference's species (rresult: returned by the reverse map)
+RVALID = ("tcopy", "tdeep", "tgt", "result")       # handles of the target's species = arguments of the reverse map
 NONMOL = ["none", "int", "str", "array", "residue", "moltop", "atomlist"]
 
 
@@ -287,11 +301,13 @@ class Session:
         self.tgt0 = self.tgt.deep_copy()
         self.build_exc = None
         self.map = None
+        self.rev = None
         if before_build is not None:
             before_build(self)            # observation point: every molecule exists, the map does not yet
         with np.errstate(all="ignore"):
             try:
                 self.map = ExchangeMap(self.ref, self.tgt, spec["scale"])
+                self.rev = ExchangeMap(self.tgt, self.ref, spec["scale"]) if spec.get("reverse") else None
             except Exception as e:  # noqa
                 self.build_exc = e
 
@@ -302,6 +318,13 @@ class Session:
             return self.ref
         if k == "tgt":
             return self.tgt
+        if k in ("tcopy", "tdeep"):
+            a = self.tgt.copy() if k == "tcopy" else self.tgt.deep_copy()
+            a.atoms_positions = np.array(o["pos"], dtype=float)
+            if o.get("gro_resids"):
+                for res, v in zip(a.residues, o["gro_resids"]):
+                    res.resid = int(v)
+            return a
         if k in ("copy", "deep", "deep_topresid"):
             a = self.ref.copy() if k == "copy" else self.ref.deep_copy()
             a.atoms_positions = np.array(o["pos"], dtype=float)
@@ -362,9 +385,18 @@ class Session:
                     self.objs.append(res)
                     self.kinds.append("result")
                     return "ok", res
+                if k == "callrev":
+                    res = self.rev(self.objs[op["h"]])
+                    self.objs.append(res)
+                    self.kinds.append("rresult")
+                    return "ok", res
                 if k == "nonmol":
                     res = self.map(self.nonmol(op["what"]))
                     return "ok", res
+                if k in ("renumref", "renumtgt", "renumobj"):
+                    mol = self.ref if k == "renumref" else self.tgt if k == "renumtgt" else self.objs[op["h"]]
+                    mol.resids = [int(x) for x in op["rids"]]
+                    return "ok", None
                 mol = self.ref if k == "pokeref" else self.tgt if k == "poketgt" else self.objs[op["h"]]
                 mol[op["i"]].position = np.array(op["v"], dtype=float)
                 return "ok", None
@@ -387,21 +419,38 @@ def next_op(rs, ses, allow_ambiguous):
     kinds = ses.kinds
     valid = [i for i, k in enumerate(kinds) if k in VALID or (allow_ambiguous and k == "diffbonds")]
     other = [i for i, k in enumerate(kinds) if k not in VALID and k != "diffbonds"]
-    pokeable = [i for i, k in enumerate(kinds) if k in ("copy", "deep", "result", "deep_topresid")]
-    results = [i for i, k in enumerate(kinds) if k == "result"]
+    pokeable = [i for i, k in enumerate(kinds) if k in ("copy", "deep", "result", "deep_topresid", "tcopy", "tdeep", "rresult")]
+    results = [i for i, k in enumerate(kinds) if k in ("result", "rresult")]
     c = rs.uniform()
     v = [float(x) for x in rs.uniform(-6, 6, size=3)]
+
+    def rids_for(mol):
+        n = len(mol.resids) + (1 if rs.randint(12) == 0 else 0)           # sometimes a wrong length: ValueError
+        return [int(x) for x in rs.randint(1, 9000, size=n)]
+    if ses.rev is not None and c < 0.18:
+        rvalid = [i for i, k in enumerate(kinds) if k in RVALID]
+        rother = [i for i, k in enumerate(kinds) if k not in RVALID]
+        pool = rvalid if (rs.randint(5) or not rother) else rother
+        if pool:
+            return {"op": "callrev", "h": int(rs.choice(pool))}
     if c < 0.45 and valid:
         return {"op": "call", "h": int(rs.choice(valid))}
-    if c < 0.57 and other:
+    if c < 0.55 and other:
         return {"op": "call", "h": int(rs.choice(other))}
-    if c < 0.63:
+    if c < 0.60:
         return {"op": "nonmol", "what": str(rs.choice(NONMOL))}
-    if c < 0.72:
+    if c < 0.64:
+        return {"op": "renumref", "rids": rids_for(ses.ref)}
+    if c < 0.67:
+        return {"op": "renumtgt", "rids": rids_for(ses.tgt)}
+    if c < 0.72 and pokeable:
+        h = int(rs.choice(pokeable))
+        return {"op": "renumobj", "h": h, "rids": rids_for(ses.objs[h])}
+    if c < 0.78:
         return {"op": "pokeref", "i": int(rs.randint(len(ses.ref))), "v": v}
-    if c < 0.80:
+    if c < 0.84:
         return {"op": "poketgt", "i": int(rs.randint(len(ses.tgt))), "v": v}
-    if c < 0.90 and results:
+    if c < 0.92 and results:
         h = int(rs.choice(results))
         return {"op": "pokeobj", "h": h, "i": int(rs.randint(len(ses.objs[h]))), "v": v}
     if pokeable:
@@ -519,6 +568,13 @@ def natlist(l):
 
 def op_term(op):
     k = op["op"]
+    if k == "callrev":
+        return "KRev %d%%nat" % op["h"]
+    return "KOp (%s)" % mop_term(op)
+
+
+def mop_term(op):
+    k = op["op"]
     if k == "call":
         return "Call %d%%nat" % op["h"]
     if k == "nonmol":
@@ -527,6 +583,10 @@ def op_term(op):
         return "PokeRef %d%%nat %s" % (op["i"], v3(op["v"]))
     if k == "poketgt":
         return "PokeTgt %d%%nat %s" % (op["i"], v3(op["v"]))
+    if k in ("renumref", "renumtgt"):
+        return "%s %s" % ("RenumRef" if k == "renumref" else "RenumTgt", lib.coq_list([lib.coq_z(x) for x in op["rids"]]))
+    if k == "renumobj":
+        return "RenumObj %d%%nat %s" % (op["h"], lib.coq_list([lib.coq_z(x) for x in op["rids"]]))
     return "PokeObj %d%%nat %d%%nat %s" % (op["h"], op["i"], v3(op["v"]))
 
 
@@ -548,9 +608,9 @@ def run_K_case(spec, rs, n_ops):
     stats = {"calls_ok": 0, "rejected": 0, "valueerror": 0, "pokes": 0, "between": False, "nonfinite": False,
              "collinear_calls": 0, "collinear_build": int(bool(ses.collinear_at_build))}
     if ses.build_exc is not None:
-        term = "chk_c04 %s %s %s (%s) (%s) (Some %s) [] [] [] [] [] []" % (
+        term = "chk_c04 %s %s %s (%s) (%s) %s (Some %s) [] [] [] [] [] []" % (
             fl(spec["scale"]), heap0, lib.coq_list(["(%s)" % r for r in objrecs]), refrec, tgtrec,
-            exc_code(ses.build_exc))
+            "true" if spec.get("reverse") else "false", exc_code(ses.build_exc))
         return term, stats
     keys0 = [int(k) for k in ses.map._refsystems]
     eq0 = [None] * n_tgt
@@ -563,21 +623,24 @@ def run_K_case(spec, rs, n_ops):
     seen_event_after_first = False
     for step in range(n_ops if generate else len(spec["ops"])):
         op = next_op(rs, ses, True) if generate else spec["ops"][step]
-        if not generate and op["op"] in ("call", "pokeobj") and op["h"] >= len(ses.objs):
+        if not generate and "h" in op and op["h"] >= len(ses.objs):
+            break
+        if not generate and op["op"] == "callrev" and ses.rev is None:
             break
         status, val = ses.apply(op)
         ops.append(op)
         if status == "exc":
             out = "OErr %s" % exc_code(val)
-            if op["op"] in ("call", "nonmol"):
+            if op["op"] in ("call", "callrev", "nonmol"):
                 if isinstance(val, ValueError):
-                    ho.add_dead(n_tgt)          # the copy of the target made before the setter raised
+                    # the copy of the (reverse) map's target made before the setter raised
+                    ho.add_dead(n_tgt if op["op"] != "callrev" else len(ses.ref))
                     stats["valueerror"] += 1
                 else:
                     stats["rejected"] += 1
                 if stats["calls_ok"]:
                     seen_event_after_first = True
-        elif op["op"] in ("call", "nonmol"):
+        elif op["op"] in ("call", "callrev", "nonmol"):
             if val is None or not hasattr(val, "atoms_positions"):
                 out = "OErr EStop"
             elif not np.isfinite(val.atoms_positions).all():
@@ -600,8 +663,9 @@ def run_K_case(spec, rs, n_ops):
     if generate:
         spec["ops"] = ops
     stats["collinear_calls"] = ses.collinear_calls
-    term = "chk_c04 %s %s %s (%s) (%s) None %s %s %s %s %s %s" % (
-        fl(spec["scale"]), heap0, lib.coq_list(["(%s)" % r for r in objrecs]), refrec, tgtrec, bg, bt,
+    term = "chk_c04 %s %s %s (%s) (%s) %s None %s %s %s %s %s %s" % (
+        fl(spec["scale"]), heap0, lib.coq_list(["(%s)" % r for r in objrecs]), refrec, tgtrec,
+        "true" if spec.get("reverse") else "false", bg, bt,
         natlist(keys0), natlist(eq0), lib.coq_list(["(%s)" % op_term(o) for o in ops], sep=";\n      "),
         lib.coq_list(obs, sep=";\n      "))
     return term, stats
@@ -630,29 +694,59 @@ def oracle_sequence(spec, gen=None):
     for lab, m, c0 in pre:
         if c0.tobytes() != coords(m).tobytes():
             bad.append("building the map changed the coordinates of %s" % lab)
-    tgt_names = [a.name for a in ses.tgt0]
-    tgt_resnames = [a.resname for a in ses.tgt0]
-    n_res_tgt = len(ses.tgt0.resids)
+    labels = {"call": ([a.name for a in ses.tgt0], [a.resname for a in ses.tgt0]),
+              "callrev": ([a.name for a in ses.ref0], [a.resname for a in ses.ref0])}
+    own = {"call": VALID, "callrev": RVALID}
+    # has the topology of the map's reference been renumbered since the construction?  (then "same species" is
+    # decided by a map built at that moment; before, every handle of the species must be accepted)
+    dirty = {"call": False, "callrev": False}
+
+    def fresh_now(which):
+        """a map built NOW from the current construction molecules (current residue numbers, gro and topology) at their
+        construction-time coordinates"""
+        rf = ses.ref.deep_copy()
+        rf.atoms_positions = coords(ses.ref0)
+        tf = ses.tgt.deep_copy()
+        tf.atoms_positions = coords(ses.tgt0)
+        return ExchangeMap(rf, tf, spec["scale"]) if which == "call" else ExchangeMap(tf, rf, spec["scale"])
+
     generate = not spec["ops"]
     ops = []
     event = False
     n = gen[1] if generate else len(spec["ops"])
     for step in range(n):
         op = next_op(gen[0], ses, False) if generate else spec["ops"][step]
-        if op["op"] in ("call", "pokeobj") and op["h"] >= len(ses.objs):
+        if "h" in op and op["h"] >= len(ses.objs):
             continue                              # replay on another tree: the handle was never produced
+        if op["op"] == "callrev" and ses.rev is None:
+            continue
         ops.append(op)
+        which = op["op"]
+        is_call = which in ("call", "callrev")
         before = [(lab, m, coords(m)) for lab, m in ses.live()]
-        kind = ses.kinds[op["h"]] if op["op"] == "call" else None
-        arg = ses.objs[op["h"]] if op["op"] == "call" else None
+        kind = ses.kinds[op["h"]] if is_call else None
+        arg = ses.objs[op["h"]] if is_call else None
         arg_resids = list(arg.resids) if arg is not None else None
-        arg_snapshot = arg.deep_copy() if (arg is not None and kind in VALID) else None
+        unclassified = is_call and (kind in ("diffbonds", "deep_topresid") or spec["shared_top"])
+        exp_kind, exp = None, None
+        if is_call and not unclassified:
+            with np.errstate(all="ignore"):
+                try:
+                    exp = fresh_now(which)(arg.deep_copy())
+                    exp_kind = "ok"
+                except TypeError:
+                    exp_kind = "type"
+                except ValueError:
+                    exp_kind = "value"
+                except Exception as e:  # noqa
+                    exp_kind = "other %r" % e
         status, val = ses.apply(op)
         where = "step %d %s" % (step, json.dumps(op)[:80])
         # --- purity: coordinates of every live molecule, bit for bit
         poked = None
-        if op["op"].startswith("poke") and status == "ok":
-            poked = ses.ref if op["op"] == "pokeref" else ses.tgt if op["op"] == "poketgt" else ses.objs[op["h"]]
+        if which.startswith("poke") and status == "ok":
+            poked = ses.ref if which == "pokeref" else ses.tgt if which == "poketgt" else ses.objs[op["h"]]
+        if which.startswith("poke") or which.startswith("renum"):
             stats["pokes"] += 1
             if stats["calls_ok"]:
                 event = True
@@ -663,35 +757,52 @@ def oracle_sequence(spec, gen=None):
                 c0[op["i"]] = np.array(op["v"], dtype=float)
             if c0.shape != c1.shape or c0.tobytes() != c1.tobytes():
                 bad.append("%s: coordinates of %s changed" % (where, lab))
+        # --- bookkeeping of topology renumbering (after the operation)
+        if status == "ok":
+            if which in ("renumref", "renumobj") or which == "callrev":
+                dirty["call"] = True
+            if which in ("renumtgt", "renumobj") or which == "call":
+                dirty["callrev"] = True
         # --- outcome
-        if op["op"] == "nonmol" or (op["op"] == "call" and kind not in VALID):
-            if kind in ("diffbonds", "deep_topresid") or spec["shared_top"]:
-                continue                          # not a case the property classifies (K-only scenarios)
+        if which == "nonmol":
             if not (status == "exc" and isinstance(val, TypeError)):
                 bad.append("%s: expected TypeError, got %s" % (where, repr(val)[:80]))
             stats["rejected"] += 1
             if stats["calls_ok"]:
                 event = True
-        elif op["op"] == "call":
-            if spec["shared_top"]:
+        elif is_call and not unclassified:
+            rejected = status == "exc" and isinstance(val, TypeError)
+            if kind not in own[which]:
+                # another species (other name / atom names / length): TypeError, whatever happened before
+                if not rejected:
+                    bad.append("%s: expected TypeError, got %s" % (where, repr(val)[:80]))
+                stats["rejected"] += 1
+                if stats["calls_ok"]:
+                    event = True
                 continue
-            if len(arg_resids) != n_res_tgt:
+            if not dirty[which] and exp_kind == "type":
+                bad.append("%s: a freshly built map rejects an argument of its own species" % where)
+                continue
+            if exp_kind == "type":
+                # the reference's topology was renumbered: this handle is no longer of the species NOW
+                if not rejected:
+                    bad.append("%s: accepted, but a map built at this moment from the current construction molecules "
+                               "raises TypeError: got %s" % (where, repr(val)[:60]))
+                stats["rejected"] += 1
+                continue
+            if exp_kind == "value":
                 stats["skipped"] += 1             # residue numbers cannot be transferred: outside the property
                 continue
+            if exp_kind != "ok":
+                bad.append("%s: a freshly built map raised %s" % (where, exp_kind))
+                continue
             if status != "ok" or not isinstance(val, Molecule):
-                bad.append("%s: valid argument not mapped: %s" % (where, repr(val)[:80]))
+                bad.append("%s: argument of the map's species not mapped (%s), while a map built at this moment from the "
+                           "current construction molecules maps it" % (where, repr(val)[:60]))
                 continue
             stats["calls_ok"] += 1
             if stats["calls_ok"] >= 2 and event:
                 stats["between"] = True
-            # fresh map from the construction-time snapshots, applied to a private copy of the argument
-            with np.errstate(all="ignore"):
-                fresh = ExchangeMap(ses.ref0.deep_copy(), ses.tgt0.deep_copy(), spec["scale"])
-                try:
-                    exp = fresh(arg_snapshot)
-                except Exception as e:  # noqa
-                    bad.append("%s: a freshly built map raised %r on the same argument" % (where, e))
-                    continue
             got, want = coords(val), coords(exp)
             if got.shape != want.shape:
                 bad.append("%s: %d atoms returned, fresh map returns %d" % (where, len(got), len(want)))
@@ -701,9 +812,9 @@ def oracle_sequence(spec, gen=None):
                 dev = np.abs(got - want) / (1.0 + np.abs(want))
                 if not (dev <= TOL_FRESH).all():
                     bad.append("%s: result differs from a freshly built map's by %.3g" % (where, np.nanmax(dev)))
-            if [a.name for a in val] != tgt_names:
+            if [a.name for a in val] != labels[which][0]:
                 bad.append("%s: atom names/order are not the target's" % where)
-            if [a.resname for a in val] != tgt_resnames:
+            if [a.resname for a in val] != labels[which][1]:
                 bad.append("%s: residue names are not the target's" % where)
             if list(val.resids) != arg_resids:
                 bad.append("%s: residue numbers %s are not the argument's %s" % (where, list(val.resids)[:5], arg_resids[:5]))
@@ -748,6 +859,7 @@ def corpus_specs():
                         {"op": "call", "h": 1}, {"op": "call", "h": 0}]}
         out.append(spec)
     out.append(rod_witness())
+    out += renumber_witnesses()
     return out
 
 
@@ -773,6 +885,35 @@ def rod_witness():
             "scale": 0.5, "shared_top": False,
             "objs": [{"kind": "copy", "pos": lst(moved(k)), "gro_resids": [10 + k]} for k in range(4)],
             "ops": [{"op": "call", "h": k} for k in [0, 1, 0, 2, 3, 2, 1, 3]]}
+
+
+def renumber_witnesses():
+    """seeded/C04-7 (species fingerprint of the reference cached at construction):
+    A - the construction reference is renumbered after the map was built; an argument sharing its topology is still of
+        the species and must be mapped as before;
+    B - a forward and a reverse map alive together: one forward call with an argument numbered 5 writes that number
+        into the target's topology = the topology of the reverse map's reference; the reverse map must go on accepting
+        an argument that shares that topology."""
+    rs = np.random.RandomState(7)
+    bonds = [[0, 1], [1, 2], [2, 3], [1, 4]]
+    ref_pos = walk_positions(rs, 5, bonds)
+    tgt_pos = ref_pos[[0, 1, 1, 2, 3, 4]] + rs.normal(scale=0.1, size=(6, 3))
+    base = {"graph_kind": "corpus", "geometry": "generic",
+            "ref": {"name": "CGW", "atoms": [["G%d" % k, "CGW", 1] for k in range(5)], "bonds": bonds, "pos": lst(ref_pos),
+                    "resid_offset": 0},
+            "tgt": {"name": "AAW", "atoms": [["A%d" % k, "AAW", 1] for k in range(6)], "bonds": chain(6), "pos": lst(tgt_pos),
+                    "resid_offset": 0, "vel": None},
+            "scale": 1.0, "shared_top": False}
+    a = dict(base, uid=960, reverse=False,
+             objs=[{"kind": "copy", "pos": lst(ref_pos + np.array([0.3, -0.2, 0.7])), "gro_resids": [1]}],
+             ops=[{"op": "call", "h": 0}, {"op": "renumref", "rids": [7]}, {"op": "call", "h": 0},
+                  {"op": "renumobj", "h": 0, "rids": [9]}, {"op": "call", "h": 0}])
+    b = dict(base, uid=961, reverse=True,
+             objs=[{"kind": "tcopy", "pos": lst(tgt_pos + np.array([1.0, 2.0, 3.0])), "gro_resids": [1]},
+                   {"kind": "copy", "pos": lst(ref_pos + 0.1), "gro_resids": [5]}],
+             ops=[{"op": "callrev", "h": 0}, {"op": "call", "h": 1}, {"op": "callrev", "h": 0},
+                  {"op": "call", "h": 1}, {"op": "callrev", "h": 0}])
+    return [json.loads(json.dumps(a)), json.loads(json.dumps(b))]
 
 
 def nontrivial(stats):
@@ -838,6 +979,10 @@ def correspondence(ctx):
         hist_add(hist, "geometry_" + spec.get("geometry", "generic"))
         hist_add(hist, "n_ref_%d" % len(spec["ref"]["atoms"]))
         hist_add(hist, "ops_%s" % ("<=10" if len(spec["ops"]) <= 10 else "<=30" if len(spec["ops"]) <= 30 else ">30"))
+        for o in spec["ops"]:
+            hist_add(hist, "op_" + o["op"])
+        if spec.get("reverse"):
+            hist_add(hist, "forward_and_reverse_map")
         hist_add(hist, "multi_residue" if len(set(a[2] for a in spec["ref"]["atoms"])) > 1 else "single_residue")
         if spec["shared_top"]:
             hist_add(hist, "shared_topology")
@@ -890,6 +1035,10 @@ def oracle(ctx, scale):
             tot[key] += stats[key]
         hist_add(hist, "n_ref_%d" % len(spec["ref"]["atoms"]))
         hist_add(hist, "geometry_" + spec.get("geometry", "generic"))
+        for o in spec["ops"]:
+            hist_add(hist, "op_" + o["op"])
+        if spec.get("reverse"):
+            hist_add(hist, "forward_and_reverse_map")
         hist_add(hist, "n_tgt_%s" % ("1" if len(spec["tgt"]["atoms"]) == 1 else "2-5" if len(spec["tgt"]["atoms"]) <= 5 else "6-20"))
         ctx.count(("S", scale, k, json.dumps(spec["ops"])[:400]), nontrivial(stats))
         if k == 1:
@@ -924,9 +1073,14 @@ def replay(ctx, obj):
 
 def finish(ctx):
     ctx.assumptions = [
-        "operation alphabet: calls (valid argument, other species, non-molecule) and in-place coordinate changes of any "
-        "live molecule; renaming atoms/residues/molecules, changing bonds, atom ids or velocities of existing objects and "
-        "numpy in-place mutation of a position array are NOT operations of the model (the property speaks of coordinates)",
+        "operation alphabet: calls (valid argument, other species, non-molecule), in-place coordinate changes and residue "
+        "renumbering (gro + topology) of any live molecule; renaming atoms/residues/molecules, changing bonds, atom ids or "
+        "velocities of existing objects and numpy in-place mutation of a position array are NOT operations of the model",
+        "a second (reverse) map alive in the same world is executed in K (same `call` on the shared heap with the other map "
+        "object) and checked in S; the theorems speak of one map and cover the other map's call only through its heap "
+        "effect (fresh cells + renumbering of the reference's topology = RenumObj on a topology-sharing handle)",
+        "after the reference's topology has been renumbered, 'argument of the species' means: accepted by a map built at that "
+        "moment from the current construction molecules (C04_verdict_fresh_now; S builds that map)",
         "a valid argument has the reference's name, atom names, indices, topology residue numbers AND bond graph (the code's "
         "test, Molecule.__eq__, does not look at bonds); as many residues as the target (otherwise ValueError, modelled, "
         "outside the property)",
